@@ -265,6 +265,23 @@ def build_family(rng, entry, variant, p, fi):
     return fam
 
 
+def gen_sample_weights(rng, n):
+    """Positive sample weights on several scales: the datafit normalises by the weight sum, so a
+    constant or a step that normalises by the sample count instead is only wrong when the two
+    differ - and only dangerous (steps longer than 2 / L) when the weights sum to less than n / 2."""
+    sw = rng.uniform(0.2, 3.0, n)
+    mode = choice(rng, ["plain", "sum1", "small", "minority"], p=[.4, .25, .2, .15])
+    if mode == "sum1":
+        sw = sw / sw.sum()
+    elif mode == "small":
+        sw = sw * 0.05
+    elif mode == "minority" and n >= 3:
+        keep = rng.choice(n, max(1, n // 5), replace=False)
+        sw = np.full(n, 1e-3)
+        sw[keep] = 1.0
+    return sig3(sw, 3).tolist()
+
+
 def finish_family(rng, fam, data, fi, alpha_frac=None):
     """Choose datafit arguments and the regularisation strength (as a fraction of the
     reference model's critical strength where one exists)."""
@@ -272,7 +289,7 @@ def finish_family(rng, fam, data, fi, alpha_frac=None):
     p = len(data["X"][0])
     dn = fam["datafit"]
     if dn == "WeightedQuadratic":
-        fam["dargs"] = dict(sample_weights=sig3(rng.uniform(0.2, 3.0, n), 3).tolist())
+        fam["dargs"] = dict(sample_weights=gen_sample_weights(rng, n))
     elif dn == "Huber":
         ystd = float(np.std(data["y"])) + 1e-3
         fam["dargs"] = dict(delta=float(sig3(ystd * choice(rng, [0.3, 1.0, 3.0]), 3)))
